@@ -164,6 +164,31 @@ func c13FreeProperty(t *rapid.T) {
 	if err := compareGroup(rg, g); err != nil {
 		vk.Violation(t, c, "C13/free/group-differs", "%v in %s", err, vk.Show(raw))
 	}
+	// the same template object used again (callers keep one template per message type): the nested
+	// group objects inside it are first used as readers themselves, then the whole group is read
+	// through the template a second time - what an earlier read left in the template's items
+	// must not show up
+	if nested && rapid.Bool().Draw(t, "template-object-reused") {
+		shared := tm.qf()
+		first := quickfix.NewRepeatingGroup(quickfix.Tag(g.tag), shared)
+		if err := p.Body.GetGroup(first); err == nil {
+			for i := 0; i < first.Len(); i++ {
+				for _, item := range shared {
+					if ng, ok := item.(*quickfix.RepeatingGroup); ok && first.Get(i).Has(ng.Tag()) {
+						_ = first.Get(i).GetGroup(ng) // the template's own nested object now holds entries
+					}
+				}
+			}
+		}
+		again := quickfix.NewRepeatingGroup(quickfix.Tag(g.tag), shared)
+		if err := p.Body.GetGroup(again); err != nil {
+			vk.Violation(t, c, "C13/free/getgroup-error/template-reused", "%v for %s", err, vk.Show(raw))
+		}
+		if err := compareGroup(again, g); err != nil {
+			vk.Violation(t, c, "C13/free/group-differs/template-reused", "%v in %s", err, vk.Show(raw))
+		}
+		c.Class("free:template-object-reused")
+	}
 	for k, v := range after {
 		got, err := p.Body.GetString(quickfix.Tag(k))
 		if err != nil || got != v {
